@@ -177,6 +177,18 @@ def check(ctx):
                "compared with the clock read itself, not with a later moment", floor=1)
     ctx.guarded(o, lambda o: future_end_check(ctx, o))
 
+    o = ctx.ob('dependency_dates_none_safe', 'R6b',
+               "the dates of the dependencies that bound a task enter max()/min() only when they are not None: the comprehension "
+               "filters `is not None`, or the pre-flight validation demands that date for every task of that relation (a linked task "
+               "outside the WBS is not scheduled by the pass and keeps whatever dates it has)", floor=2)
+    ctx.guarded(o, lambda o: dependency_dates(ctx, o))
+
+    o = ctx.ob('user_resources_are_not_hashed', 'R6b',
+               "user supplied IResource objects are only compared (==) and called, never used as dictionary keys / set members: a "
+               "resource class with value equality and no __hash__ (a plain @dataclass) would end calc in TypeError: unhashable type",
+               floor=2)
+    ctx.guarded(o, lambda o: resource_keys(ctx, o, core))
+
     o = ctx.ob('next_has_a_default', 'R6b',
                "every next() on an iterator that can run dry (a filtered / finite generator) passes a default and every "
                "functools.reduce() over a possibly empty sequence an initial value: a bare next() ends in StopIteration, a bare "
@@ -499,6 +511,24 @@ def memo(ctx, o):
             o.site(f, apps[0], "memo test first, memo append on every normal exit")
 
 
+def _walk_skipped_when(prog, ctx, f, loop_stmt):
+    """text of the path condition under which _check_loops does not reach its walk (an early return / an enclosing if), or None.
+    Tests that only say `the WBS has tasks` are not a restriction."""
+    out = []
+    for t, p in facts.node_conditions(prog, f, loop_stmt, ctx.typer, expand=True):
+        em = sched.is_emptiness(t, p)
+        if em is None:
+            core, pol = t, p
+            while isinstance(core, ast.UnaryOp) and isinstance(core.op, ast.Not):
+                core, pol = core.operand, not pol
+            em = (core, not pol) if isinstance(core, ast.Attribute) else None
+        if em is not None and not em[1] and (match(f"{f.params[0]}.tasks", sched.strip_seq_copy(em[0])) or
+                                             match(f"{f.params[0]}.roots", sched.strip_seq_copy(em[0]))):
+            continue
+        out.append(('' if p else 'not ') + src(t))
+    return ' and '.join(out) if out else None
+
+
 def loop_check(ctx, o):
     prog = ctx.prog
     f = prog.func('schedule._check_loops')
@@ -528,6 +558,10 @@ def loop_check(ctx, o):
             if not fors or not match(f"{f.params[0]}.tasks", fit):
                 o.refute(f, w, w.test, f"the loop check does not start from every task of the WBS ({f.params[0]}.tasks)")
                 continue
+            skip = _walk_skipped_when(prog, ctx, f, fors[0])
+            if skip:
+                o.refute(f, fors[0], 'walk skipped', f"the loop check walks the graph only when `{skip[:90]}` and returns otherwise")
+                continue
             # every container the search tests membership in is allocated by this call
             marks = {x.comparators[0].id for x in walk_no_nested(f.node) if isinstance(x, ast.Compare) and len(x.ops) == 1 and
                      isinstance(x.ops[0], (ast.In, ast.NotIn)) and isinstance(x.comparators[0], ast.Name)}
@@ -547,6 +581,11 @@ def loop_check(ctx, o):
         fit = sched.strip_seq_copy(ex.expand(fo.iter, cfg_of(f).node_of(fo))) if fo is not None else None
         if fo is None or not match(f"{f.params[0]}.tasks", fit):
             o.refute(f, c, c, f"the loop check does not start from every task of the WBS ({f.params[0]}.tasks)")
+            continue
+        skip = _walk_skipped_when(prog, ctx, f, fo)
+        if skip:
+            o.refute(f, fo, 'walk skipped', f"the loop check walks the graph only when `{skip[:90]}` and returns otherwise: a cycle in a WBS for which "
+                                            f"that test fails is not diagnosed and the passes recurse until RecursionError")
             continue
         shared = [ex.expand(x) for x in c.args[1:]]
         if not shared or not all(match("set()", x) or match("{}", x) or match("[]", x) or match("dict()", x) for x in shared):
@@ -583,8 +622,6 @@ def loop_check(ctx, o):
             o.undecided(g, g.node, 'edge kinds', "loop check written in an unrecognised form")
         return
     tp = wf.params[0]
-    exw = Expander(prog, wf, ctx.typer)
-    rets = [n for n in walk_no_nested(wf.node) if isinstance(n, ast.Return)]
     # unpack `_task, is_end = node`
     names = None
     for n in walk_no_nested(wf.node):
@@ -594,129 +631,121 @@ def loop_check(ctx, o):
     if names is None:
         o.undecided(wf, wf.node, 'waits_for', "node is not unpacked as (task, is_end)")
         return
-    tv, ev = names
     found = {'end->start': False, 'end->children': False, 'start->pred': False, 'start->parent': False}
+    narrowed, unknown, opaque = {}, [], []
+    BUILTIN = ('iter', 'list', 'tuple', 'len', 'id', 'reversed', 'sorted', 'set', 'range', 'enumerate', 'zip', 'str', 'isinstance')
 
-    def pairs_in(nodes):
-        """(task expression, flag constant, comprehension source or None) of every 2-tuple literal with a bool flag"""
-        res = []
-        for root in nodes:
-            for n in ast.walk(root):
-                if isinstance(n, ast.Tuple) and len(n.elts) == 2 and isinstance(n.elts[1], ast.Constant) and isinstance(n.elts[1].value, bool):
-                    res.append(n)
-        return res
+    def analyse(fn, tv, ev, forced_side, outer_extra, depth):
+        """classify every node tuple built by fn (task variable tv; ev = the is_end flag, or None when the whole function
+        belongs to forced_side); follows calls `h(tv)` of sibling helpers"""
+        exw = Expander(prog, fn, ctx.typer)
+        wcfg = cfg_of(fn)
+        stmts = [st for st in walk_no_nested(fn.node) if isinstance(st, (ast.Return, ast.Assign, ast.AugAssign, ast.Expr))
+                 and not isinstance(getattr(st, 'value', None), ast.Constant)]
 
-    def source_of(tup, roots):
-        """iterable of the comprehension that produces tuple `tup` (None when it is a plain element)"""
-        for root in roots:
-            for n in ast.walk(root):
-                if isinstance(n, (ast.ListComp, ast.GeneratorExp)) and n.elt is tup and len(n.generators) == 1:
-                    g_ = n.generators[0]
-                    return ast.comprehension(target=g_.target, iter=seq_x(g_.iter, root), ifs=g_.ifs, is_async=0)
-        # accumulate loop: `for v in ITER: <acc>.append(tup)` - conditions inside the loop are seen by extra_conditions
-        best = None
-        for fo in walk_no_nested(wf.node):
-            if isinstance(fo, ast.For) and any(x is tup for st_ in fo.body for x in ast.walk(st_)):
-                best = fo
-        if best is not None:
-            return ast.comprehension(target=best.target, iter=seq_x(best.iter, best), ifs=[], is_async=0)
-        return None
+        def conds_of(st, node):
+            cs = list(facts.node_conditions(prog, fn, st, ctx.typer, expand=True))
+            cs += eval_conditions(st, node) or []
+            return [(a_, q_) for t_, p_ in cs for a_, q_ in facts.split_conj(t_, p_)]
 
-    wcfg = cfg_of(wf)
-
-    def seq_x(e, stmt):
-        at = wcfg.node_of(stmt) or wcfg.node_containing(stmt)
-        return sched.strip_seq_copy(exw.expand(e, at) if at is not None else e)
-
-    def elem_x(tup):
-        """the task element of a node tuple, locals resolved (`parent = _task.parent; .. (parent, False)`)"""
-        e = tup.elts[0]
-        if isinstance(e, ast.Name) and e.id != tv:
-            at = wcfg.node_containing(tup)
-            d = flow_of(wf).unique_def(e.id, at) if at is not None else None
-            if d is not None and d.kind == 'assign' and d.value is not None:
-                return exw.expand(e, at)
-        return e
-
-    # statements of the function split by the `is_end` test
-    end_nodes, start_nodes = [], []
-    for st in walk_no_nested(wf.node):
-        if isinstance(st, (ast.Return, ast.Assign, ast.AugAssign, ast.Expr)) and not isinstance(getattr(st, 'value', None), ast.Constant):
-            conds = facts.node_conditions(prog, wf, st, ctx.typer, expand=False)
+        def side_of(st, node):
+            if ev is None:
+                return forced_side
             flag = None
-            for t, p in conds:
-                if isinstance(t, ast.Name) and t.id == ev:
-                    flag = p
-                elif isinstance(t, ast.UnaryOp) and isinstance(t.op, ast.Not) and isinstance(t.operand, ast.Name) and t.operand.id == ev:
-                    flag = not p
-            (end_nodes if flag is True else start_nodes).append(st)
-    narrowed = {}
+            for a_, q_ in conds_of(st, node):
+                a2, q2 = facts.norm_cond(a_, q_)
+                while isinstance(a2, ast.UnaryOp) and isinstance(a2.op, ast.Not):
+                    a2, q2 = a2.operand, not q2
+                if isinstance(a2, ast.Name) and a2.id == ev:
+                    flag = q2
+            return 'end' if flag is True else 'start'
 
-    def extra_conditions(tup, nodes, allowed):
-        """conditions (beyond the start/end flag and the patterns in `allowed`) under which the statement holding tup runs"""
-        out = []
-        for st in nodes:
-            if not any(x is tup for x in ast.walk(st)):
-                continue
-            conds = list(facts.node_conditions(prog, wf, st, ctx.typer, expand=True))
-            conds += eval_conditions(st, tup) or []
-            for t, p in conds:
-                for a, q in facts.split_conj(t, p):
-                    a2, q2 = facts.norm_cond(a, q)
-                    core = a2
-                    while isinstance(core, ast.UnaryOp) and isinstance(core.op, ast.Not):
-                        core, q2 = core.operand, not q2
-                    if isinstance(core, ast.Name) and core.id == ev:
+        def seq_x(e, stmt):
+            at = wcfg.node_of(stmt) or wcfg.node_containing(stmt)
+            return sched.strip_seq_copy(exw.expand(e, at) if at is not None else e)
+
+        def source_of(tup):
+            for root in stmts:
+                for n in ast.walk(root):
+                    if isinstance(n, (ast.ListComp, ast.GeneratorExp)) and n.elt is tup and len(n.generators) == 1:
+                        g_ = n.generators[0]
+                        return ast.comprehension(target=g_.target, iter=seq_x(g_.iter, root), ifs=g_.ifs, is_async=0)
+            best = None
+            for fo in walk_no_nested(fn.node):
+                if isinstance(fo, ast.For) and any(x is tup for st_ in fo.body for x in ast.walk(st_)):
+                    best = fo
+            if best is not None:
+                return ast.comprehension(target=best.target, iter=seq_x(best.iter, best), ifs=[], is_async=0)
+            return None
+
+        def elem_x(tup):
+            e = tup.elts[0]
+            if isinstance(e, ast.Name) and e.id != tv:
+                at = wcfg.node_containing(tup)
+                d = flow_of(fn).unique_def(e.id, at) if at is not None else None
+                if d is not None and d.kind == 'assign' and d.value is not None:
+                    return exw.expand(e, at)
+            return e
+
+        def extra_conditions(st, node, allowed, allowed_seqs):
+            out = []
+            for a_, q_ in conds_of(st, node):
+                a2, q2 = facts.norm_cond(a_, q_)
+                core = a2
+                while isinstance(core, ast.UnaryOp) and isinstance(core.op, ast.Not):
+                    core, q2 = core.operand, not q2
+                if ev is not None and isinstance(core, ast.Name) and core.id == ev:
+                    continue
+                if any(facts.cond_is(a_, q_, pat, want=w) for pat, w in allowed):
+                    continue
+                em = sched.is_emptiness(a_, q_)
+                if em is not None and not em[1] and any(same(em[0], x) for x in allowed_seqs):
+                    continue
+                out.append(('' if q_ else 'not ') + src(a_))
+            return out
+
+        for st in stmts:
+            for n in ast.walk(st):
+                if isinstance(n, ast.Tuple) and len(n.elts) == 2 and isinstance(n.elts[1], ast.Constant) and isinstance(n.elts[1].value, bool):
+                    tup, side = n, side_of(st, n)
+                    gen = source_of(tup)
+                    tgt, flag = elem_x(tup), tup.elts[1].value
+                    kind, allowed, allowed_seqs = None, [], []
+                    if gen is None:
+                        if side == 'end' and isinstance(tgt, ast.Name) and tgt.id == tv and flag is False:
+                            kind = 'end->start'
+                        elif side == 'start' and match(f"{tv}.parent", tgt) and flag is False:
+                            kind, allowed = 'start->parent', [(f"{tv}.parent is None", False), (f"{tv}.parent", True)]
+                    elif isinstance(gen.target, ast.Name) and isinstance(tgt, ast.Name) and tgt.id == gen.target.id and flag is True:
+                        if side == 'end' and match(f"{tv}.children", gen.iter):
+                            kind = 'end->children'
+                        elif side == 'start' and match(f"{tv}.predecessors", gen.iter):
+                            kind = 'start->pred'
+                        allowed_seqs = [gen.iter]
+                    if kind is None:
+                        unknown.append(tup)
                         continue
-                    if any(facts.cond_is(a, q, pat, want=w) for pat, w in allowed):
+                    extra = list(outer_extra) + extra_conditions(st, tup, allowed, allowed_seqs)
+                    if gen is not None and gen.ifs:
+                        extra = [' and '.join(src(c_) for c_ in gen.ifs)] + extra
+                    extra = list(dict.fromkeys(extra))
+                    if extra:
+                        narrowed.setdefault(kind, extra)
+                    else:
+                        found[kind] = True
+                elif isinstance(n, ast.Call) and isinstance(n.func, ast.Name) and n.func.id not in BUILTIN and n.func.id != fn.name:
+                    h = prog.funcs.get(g.qual + '.' + n.func.id) or prog.funcs.get(fn.qual + '.' + n.func.id) or \
+                        prog.funcs.get(f"{fn.module.name}.{n.func.id}")
+                    if h is None or isinstance(h.node, ast.Lambda):
                         continue
-                    em = sched.is_emptiness(a, q)
-                    if em is not None and not em[1] and any(same(em[0], x) for x in allowed_seqs):
-                        continue
-                    out.append(('' if q else 'not ') + src(a))
-        return out
+                    if depth < 3 and len(n.args) == 1 and not n.keywords and isinstance(n.args[0], ast.Name) and n.args[0].id == tv and \
+                            len(h.params) == 1:
+                        analyse(h, h.params[0], None, side_of(st, n), list(outer_extra) + extra_conditions(st, n, [], []), depth + 1)
+                    else:
+                        opaque.append(n)
+        opaque.extend(n for n in walk_no_nested(fn.node) if isinstance(n, (ast.Yield, ast.YieldFrom)))
 
-    allowed_seqs = []
-    unknown = []
-
-    def filt_text(gen):
-        return ' and '.join(src(c) for c in gen.ifs)
-
-    def classify(tup, nodes, side):
-        """which edge kind the node tuple stands for; records found / narrowed / unknown"""
-        gen = source_of(tup, nodes)
-        tgt, flag = elem_x(tup), tup.elts[1].value
-        kind, allowed = None, []
-        allowed_seqs[:] = []
-        if gen is None:
-            if side == 'end' and isinstance(tgt, ast.Name) and tgt.id == tv and flag is False:
-                kind = 'end->start'
-            elif side == 'start' and match(f"{tv}.parent", tgt) and flag is False:
-                kind, allowed = 'start->parent', [(f"{tv}.parent is None", False), (f"{tv}.parent", True)]
-        elif isinstance(gen.target, ast.Name) and isinstance(tgt, ast.Name) and tgt.id == gen.target.id and flag is True:
-            if side == 'end' and match(f"{tv}.children", gen.iter):
-                kind = 'end->children'
-            elif side == 'start' and match(f"{tv}.predecessors", gen.iter):
-                kind = 'start->pred'
-            allowed_seqs[:] = [gen.iter]
-        if kind is None:
-            unknown.append(tup)
-            return
-        extra = extra_conditions(tup, nodes, allowed)
-        if gen is not None and gen.ifs:
-            extra = [filt_text(gen)] + extra
-        extra = list(dict.fromkeys(extra))
-        if extra:
-            narrowed.setdefault(kind, extra)
-        else:
-            found[kind] = True
-
-    for tup in pairs_in(end_nodes):
-        classify(tup, end_nodes, 'end')
-    for tup in pairs_in(start_nodes):
-        classify(tup, start_nodes, 'start')
-    # anything else that could produce nodes: generators, helper calls returning node lists
-    opaque = [n for n in walk_no_nested(wf.node) if isinstance(n, (ast.Yield, ast.YieldFrom))]
+    analyse(wf, names[0], names[1], None, [], 0)
     for k, v in found.items():
         if v:
             o.site(wf, wf.node, f"edge {k}")
@@ -815,7 +844,12 @@ def divisions(ctx, o, core):
             D = n.right
             Dx = ex.expand(D, cn)
             # (i) dominated by  (D - RESV) > 0
-            conds = facts.node_conditions(prog, f, n, ctx.typer)
+            conds = list(facts.node_conditions(prog, f, n, ctx.typer))
+            if cn is not None and cn.ast is not None:
+                # `(1 - free / CAP) if free > 0 else None`: the guard is the test of the enclosing conditional expression
+                root = cn.ast.test if isinstance(cn.ast, (ast.If, ast.While)) else cn.ast
+                for t_, p_ in (eval_conditions(root, n) or []):
+                    conds += facts.split_conj(ex.expand(t_, cn), p_)
             ok = False
             for t, p in conds:
                 st = sched.sign_test(t, p)
@@ -835,6 +869,24 @@ def divisions(ctx, o, core):
                 o.undecided(f, n, n, f"division by `{src(D)}`: {msg[1]}")
             else:
                 o.refute(f, n, n, f"division by `{src(D)}`: {msg}")
+
+
+def _above_nonneg_const(t, p):
+    """`x > c` / `c < x` with a constant c >= 0 (polarity true) implies x > 0: reported like sign_test as (x, '>')"""
+    while isinstance(t, ast.UnaryOp) and isinstance(t.op, ast.Not):
+        t, p = t.operand, not p
+    if isinstance(t, ast.Compare) and len(t.ops) == 1:
+        l, op, r = t.left, t.ops[0], t.comparators[0]
+        rc, lc = facts.const_num(r), facts.const_num(l)
+        if p and rc is not None and rc >= 0 and isinstance(op, (ast.Gt,)):
+            return l, '>'
+        if p and rc is not None and rc > 0 and isinstance(op, ast.GtE):
+            return l, '>'
+        if p and lc is not None and lc >= 0 and isinstance(op, ast.Lt):
+            return r, '>'
+        if not p and rc is not None and rc >= 0 and isinstance(op, ast.LtE):
+            return l, '>'
+    return None
 
 
 def _loop_exit_divisor(ctx, f, node, D, S):
@@ -912,6 +964,8 @@ def _loop_exit_divisor(ctx, f, node, D, S):
     # a cursor stepped by `d = d - DAY` must stay an atom: expanding it inside the loop would name the previous day
     selfref = {d.var for d in fl.defs if d.kind == 'assign' and d.value is not None and
                any(isinstance(x, ast.Name) and x.id == d.var for x in ast.walk(d.value))}
+    if len(c.args) > 1 and isinstance(c.args[1], ast.Name):
+        selfref = set(selfref) | {c.args[1].id}      # the day cursor of the booking stays an atom however it is computed
     conds = []
     for t, pol in cfg.conditions(rnode):
         conds += facts.split_conj(ex.expand(t, cfg.node_containing(t), stop=selfref), pol)
@@ -920,12 +974,17 @@ def _loop_exit_divisor(ctx, f, node, D, S):
             conds += facts.split_conj(ex.expand(t, rnode, stop=selfref), pol)
     cap_of_booking = None
     for t, p in conds:
-        s2 = sched.sign_test(t, p)
+        s2 = sched.sign_test(t, p) or _above_nonneg_const(t, p)
         if s2 and s2[1] == '>':
             fr = parse_free(s2[0], S['balance'])
             if fr:
                 cap_of_booking = fr['cap']
     if cap_of_booking is None:
+        loop_conds = cfg.conditions(cfg.node_of(loop)) if cfg.node_of(loop) is not None else []
+        own = [c_ for c_ in cfg.conditions(rnode) if not any(c_[0] is l_[0] for l_ in loop_conds) and c_[0] is not loop.test]
+        if own or (rnode is not None and rnode.ast is not None and eval_conditions(rnode.ast, c)):
+            # the booking is conditional, but not on a test the rule can read as `capacity - reserved > 0`
+            return ('undecided', f"the booking is guarded by `{src(own[0][0])[:60] if own else '..'}`, which the rule cannot read as free > 0")
         return "the booking is not guarded by free > 0"
     Dx = ex.expand(D, cn, stop=selfref)
     capD = parse_cap(Dx)
@@ -999,6 +1058,9 @@ def extrema(ctx, o, core):
                     comp = _accumulated_comp(PassShape(ctx, S), seq.id)
                     if comp is not None:
                         seq = comp
+                elif len(rd) == 1 and rd[0].kind == 'assign' and rd[0].value is not None and facts.comp_parts(rd[0].value) and \
+                        len(fl.defs_of(seq.id)) == 1 and not PassShape(ctx, S)._mutated_in_place(seq.id):
+                    seq = rd[0].value          # a comprehension hoisted into a local that is never changed afterwards
             if isinstance(seq, ast.Name):
                 # every reaching definition non-empty, or an emptiness fallback dominates
                 defs = fl.reaching(seq.id, cn)
@@ -1084,7 +1146,7 @@ def all_dated(ctx, o):
             for n in cfg.nodes:
                 if n.kind == 'branch' and not isinstance(n.test, (ast.For,)):
                     if (match(f"{ps.task}.{attr} is None", n.test) and n.polarity is False) or \
-                            (match(f"{ps.task}.{attr} is not None", n.test) and n.polarity is True):
+                            (match(f"{ps.task}.{attr} is not None", n.test) and n.polarity is True) or _branch_not_none(ps, n, attr):
                         gen.add(n.id)
             avoid = set(gen) | set(skip)
             seen, todo, leak = set(), [cfg.entry], False
@@ -1178,6 +1240,29 @@ def none_safe(ctx, o, core):
                 o.refute(f, n, n, f"`{src(n)[:60]}` uses nullable `{src(e)}` without a None test (TypeError)")
 
 
+def _branch_not_none(ps, b, attr):
+    """branch b is taken only when task.<attr> was not None, the test being a flag hoisted into a local
+    (`no_start = task.start is None` ... `elif no_start:` false branch).  The flag is a snapshot: sound as long as the pass never
+    stores None into the field (checked by the callers' gen sets: stores of None are not generators)"""
+    if b.kind != 'branch' or b.test is None or isinstance(b.test, (ast.For, ast.AsyncFor)):
+        return False
+    for a, q in facts.split_conj(b.test, b.polarity):
+        core, q2 = a, q
+        while isinstance(core, ast.UnaryOp) and isinstance(core.op, ast.Not):
+            core, q2 = core.operand, not q2
+        if isinstance(core, ast.Name) and core.id not in ps.f.params:
+            ds = ps.fl.defs_of(core.id)
+            if len(ds) == 1 and ds[0].kind == 'assign' and ds[0].value is not None and ds[0].node is not None:
+                tn = ps.cfg.node_containing(b.test)
+                if tn is None or not ps.cfg.dominates(ds[0].node, tn):
+                    continue
+                # no store to the field between the flag and a branch that claims "was not None": a later store only makes it more so
+                for a2, q3 in facts.split_conj(ds[0].value, q2):
+                    if facts.cond_is(a2, q3, f"{ps.task}.{attr} is None", want=False):
+                        return True
+    return False
+
+
 def _definitely_set(ps, attr, at):
     """every path from the entry of the pass to node `at` stores a value into task.<attr> or passes a branch on which
     `task.<attr> is None` is false (`if x is None and leaf: x = .. elif x is None: x = ..` and similar merged forms)"""
@@ -1194,6 +1279,8 @@ def _definitely_set(ps, attr, at):
             for a, q in facts.split_conj(b.test, b.polarity):
                 if facts.cond_is(a, q, f"{ps.task}.{attr} is None", want=False):
                     gen.add(b.id)
+            if _branch_not_none(ps, b, attr):
+                gen.add(b.id)
     if at.id in gen:
         return False
     seen, todo = set(), [cfg.entry]
@@ -1448,6 +1535,81 @@ def _local_definitely_set(f, name, at):
     return True
 
 
+def dependency_dates(ctx, o):
+    prog = ctx.prog
+    # which (relation, date) pairs the isolation check demands: `for pr in t.<rel>: if .. (not pr.start or not pr.end): raise`
+    vf = prog.func('schedule._validate_graph_isolation')
+    demanded = set()
+    for r in [x for x in walk_no_nested(vf.node) if isinstance(x, ast.Raise)]:
+        fors = cfg_of(vf).enclosing_fors(cfg_of(vf).node_of(r))
+        for fo in fors:
+            if isinstance(fo.target, ast.Name) and isinstance(fo.iter, ast.Attribute) and fo.iter.attr in ('predecessors', 'successors'):
+                for t, p in facts.node_conditions(prog, vf, r, ctx.typer, expand=True):
+                    for a, q in facts.split_conj(t, p):
+                        for attr in ('start', 'end'):
+                            if facts.cond_is(a, q, f"{fo.target.id}.{attr}", want=False) or facts.cond_is(a, q, f"{fo.target.id}.{attr} is None", want=True):
+                                demanded.add((fo.iter.attr, attr))
+                            # a disjunction `not pr.start or not pr.end` under polarity True stays one atom
+                            if q and isinstance(a, ast.BoolOp) and isinstance(a.op, ast.Or):
+                                for v in a.values:
+                                    if facts.cond_is(v, True, f"{fo.target.id}.{attr}", want=False) or \
+                                            facts.cond_is(v, True, f"{fo.target.id}.{attr} is None", want=True):
+                                        demanded.add((fo.iter.attr, attr))
+    for S in BOTH:
+        ps = PassShape(ctx, S)
+        pt = ps.prereq_term()
+        if pt is None:
+            o.undecided(ps.f, ps.f.node, 'prerequisite term', "no max/min over the dependency dates recognised in the pass")
+            continue
+        elt, tgt, it, ifs = pt['parts']
+        attr = ps.end_attr
+        if any(match(f"{tgt.id}.{attr} is not None", c) or match(f"{tgt.id}.{attr}", c) for c in ifs):
+            o.site(ps.f, pt['stmt'], f"{ps.rel}: {attr} filtered `is not None`")
+        elif (ps.rel, attr) in demanded:
+            # validated for outside tasks, assigned by the recursion for inside tasks
+            o.site(ps.f, pt['stmt'], f"{ps.rel}: {attr} demanded by _validate_graph_isolation")
+        else:
+            o.refute(ps.f, pt['stmt'], pt['comp'], f"`{src(pt['comp'])[:70]}` feeds the {attr} of every task in `{src(it)[:30]}` into {ps.lat}() without a "
+                                                   f"None filter, and _validate_graph_isolation does not demand a {attr} for {ps.rel}: a linked task "
+                                                   f"outside the WBS (not scheduled by the pass) without a {attr} ends calc in TypeError")
+
+
+def resource_keys(ctx, o, core):
+    prog = ctx.prog
+    for f in core:
+        if isinstance(f.node, ast.Lambda) or f.module.name != 'schedule':
+            continue
+
+        def typed_resource(e):
+            if isinstance(e, ast.Tuple):
+                return next((x for x in e.elts if typed_resource(x)), None)
+            t = ctx.typer.expr_type(e, f)
+            return e if t in ('IResource', 'Resource') else None
+        for n in walk_no_nested(f.node):
+            keys = []
+            if isinstance(n, ast.Subscript) and not isinstance(n.slice, ast.Slice):
+                keys.append(n.slice)
+            elif isinstance(n, ast.Call) and isinstance(n.func, ast.Attribute) and n.func.attr in ('get', 'setdefault', 'pop', 'add', 'discard') and n.args:
+                keys.append(n.args[0])
+            elif isinstance(n, ast.Dict):
+                keys += [k for k in n.keys if k is not None]
+            elif isinstance(n, ast.DictComp):
+                keys.append(n.key)
+            elif isinstance(n, ast.Call) and isinstance(n.func, ast.Name) and n.func.id in ('set', 'frozenset', 'hash') and n.args:
+                a0 = n.args[0]
+                if isinstance(a0, (ast.ListComp, ast.GeneratorExp)):
+                    keys.append(a0.elt)
+                elif n.func.id == 'hash':
+                    keys.append(a0)
+            for k in keys:
+                r = typed_resource(k)
+                if r is not None:
+                    o.refute(f, n, n, f"`{src(n)[:60]}` hashes the resource object `{src(r)}`: a user supplied IResource with value equality "
+                                      f"and no __hash__ ends calc in TypeError (unhashable type)")
+                elif isinstance(n, (ast.Subscript, ast.Call)) and (match("$t.resource", k) or match("$r.name", k)):
+                    o.site(f, n, f"keyed by the resource name `{src(k)}`")
+
+
 def future_end_check(ctx, o):
     prog = ctx.prog
     vf = sched_dep.resolve_validator(ctx, FWD, sched_dep.FUTURE_END)
@@ -1555,8 +1717,15 @@ def next_calls(ctx, o, core):
                 elif len(n.args) == 2 and _has_literal_element(n.args[1]):
                     o.site(f, n, "reduce over a sequence with a literal element")
                 elif len(n.args) == 2:
-                    o.refute(f, n, n, f"`{src(n)[:70]}` has no initial value: for an empty sequence (no calendar covers the date) it raises "
-                                      f"TypeError instead of answering `no capacity`")
+                    seq_ = sched.strip_seq_copy(n.args[1])
+                    parts_ = facts.comp_parts(seq_)
+                    if parts_ is not None and not parts_[3]:
+                        # one element per member of the source collection: empty only if the collection is (not decided here)
+                        o.undecided(f, n, n, f"`{src(n)[:70]}` has no initial value; its sequence has one element per element of "
+                                             f"`{src(parts_[2])[:40]}`, whose emptiness the rule does not decide")
+                    else:
+                        o.refute(f, n, n, f"`{src(n)[:70]}` has no initial value: for an empty sequence (no calendar covers the date) it "
+                                          f"raises TypeError instead of answering `no capacity`")
     for f in core:
         if isinstance(f.node, ast.Lambda):
             continue
